@@ -91,7 +91,7 @@ fn bases(seed: u64, tier: Tier) -> Vec<Vec<Chunk>> {
     }
     // a slice of the C02 space: all well-formed 2-chunk sequences over the reduced kinds
     let kinds = chunk_kinds(seed, true);
-    let step = tier.pick(23usize, 1usize);
+    let step = tier.pick(2usize, 1usize);
     let mut k = 0usize;
     for a in 0..kinds.len() {
         for b in 0..kinds.len() {
